@@ -35,7 +35,7 @@ theorem ldl2_shape (P : Fin 2 → Fin 2 → ℝ) :
     (∀ i, util.ldl2.L_mat P i i = 1) ∧ (∀ i j, i < j → util.ldl2.L_mat P i j = 0)
       ∧ (∀ i j, i ≠ j → util.ldl2.D_mat P i j = 0) := by
   refine ⟨?_, ?_, ?_⟩
-  · intro i; fin_cases i <;> simp [cas_defs, cas_real]
+  · intro i; fin_cases i <;> simp [cas_defs, cas_real] <;> (try ring1)
   · intro i j h; fin_cases i <;> fin_cases j <;> simp [cas_defs, cas_real] at *
   · intro i j h; fin_cases i <;> fin_cases j <;> simp [cas_defs, cas_real] at *
 
@@ -48,7 +48,7 @@ theorem udu2_shape (P : Fin 2 → Fin 2 → ℝ) :
     (∀ i, util.udu2.U_mat P i i = 1) ∧ (∀ i j, j < i → util.udu2.U_mat P i j = 0)
       ∧ (∀ i j, i ≠ j → util.udu2.D_mat P i j = 0) := by
   refine ⟨?_, ?_, ?_⟩
-  · intro i; fin_cases i <;> simp [cas_defs, cas_real]
+  · intro i; fin_cases i <;> simp [cas_defs, cas_real] <;> (try ring1)
   · intro i j h; fin_cases i <;> fin_cases j <;> simp [cas_defs, cas_real] at *
   · intro i j h; fin_cases i <;> fin_cases j <;> simp [cas_defs, cas_real] at *
 
@@ -67,7 +67,7 @@ theorem ldl3_shape (P : Fin 3 → Fin 3 → ℝ) :
     (∀ i, util.ldl3.L_mat P i i = 1) ∧ (∀ i j, i < j → util.ldl3.L_mat P i j = 0)
       ∧ (∀ i j, i ≠ j → util.ldl3.D_mat P i j = 0) := by
   refine ⟨?_, ?_, ?_⟩
-  · intro i; fin_cases i <;> simp [cas_defs, cas_real]
+  · intro i; fin_cases i <;> simp [cas_defs, cas_real] <;> (try ring1)
   · intro i j h; fin_cases i <;> fin_cases j <;> simp [cas_defs, cas_real] at *
   · intro i j h; fin_cases i <;> fin_cases j <;> simp [cas_defs, cas_real] at *
 
@@ -84,7 +84,7 @@ theorem udu3_shape (P : Fin 3 → Fin 3 → ℝ) :
     (∀ i, util.udu3.U_mat P i i = 1) ∧ (∀ i j, j < i → util.udu3.U_mat P i j = 0)
       ∧ (∀ i j, i ≠ j → util.udu3.D_mat P i j = 0) := by
   refine ⟨?_, ?_, ?_⟩
-  · intro i; fin_cases i <;> simp [cas_defs, cas_real]
+  · intro i; fin_cases i <;> simp [cas_defs, cas_real] <;> (try ring1)
   · intro i j h; fin_cases i <;> fin_cases j <;> simp [cas_defs, cas_real] at *
   · intro i j h; fin_cases i <;> fin_cases j <;> simp [cas_defs, cas_real] at *
 
@@ -204,7 +204,7 @@ theorem sqrt_correct_qr_3_2 (hQ : (Matrix.of qrQ)ᵀ * Matrix.of qrQ = 1)
   have hA : ∀ (i : Fin 3) (j : Fin 2), qr_arg_mat Rs H W qrQ qrR (finSumFinEquiv (m := 2) (n := 3) (Sum.inl j)) (finSumFinEquiv (m := 2) (n := 3) (Sum.inr i)) = 0 := by
     intro i j; fin_cases i <;> fin_cases j <;> simp only [e_inl0, e_inl1, e_inr0, e_inr1, e_inr2]
     all_goals simp only [qr_arg_mat, Matrix.of_apply, Matrix.cons_val', Matrix.cons_val_zero, Matrix.cons_val_one, Matrix.cons_val, Matrix.cons_val_fin_one]
-    all_goals simp [cas_defs, cas_real]
+    all_goals simp [cas_defs, cas_real] <;> (try ring1)
   have hR : ∀ (i : Fin 3) (j : Fin 2), upperPart qrR (finSumFinEquiv (m := 2) (n := 3) (Sum.inr i)) (finSumFinEquiv (m := 2) (n := 3) (Sum.inl j)) = 0 := by
     intro i j; fin_cases i <;> fin_cases j <;> simp [upperPart]
   obtain ⟨a, c, d⟩ := SqrtFilter.flat (M := Fin 2) (N := Fin 3) finSumFinEquiv _ _ _ hQ hQR hA hR
